@@ -141,7 +141,7 @@ func (r c04Req) id() string {
 }
 
 func genC04Req(rt *rapid.T, endpoint string, nodeWho, walletWho ident) c04Req {
-	r := c04Req{endpoint: endpoint, who: nodeWho, nonce: time.Now().UnixNano() + rapid.Int64Range(0, int64(time.Minute)).Draw(rt, "nonceAhead")}
+	r := c04Req{endpoint: endpoint, who: nodeWho, nonce: time.Now().UnixNano() + genNonceAhead(rt)}
 	switch endpoint {
 	case "connect":
 		r.method = "vipnode_connect"
@@ -465,7 +465,7 @@ func TestC04SignedEndpoints(t *testing.T) {
 				}
 			case "idcase":
 				// the same identity spelled differently (hex case): the signature covers the string as sent
-				spell := rapid.SampledFrom([]string{"lower", "upper", "mixed"}).Draw(rt, "spelling")
+				spell := rapid.SampledFrom([]string{"lower", "upper", "mixed", "prefix"}).Draw(rt, "spelling")
 				alt2 := respell(id, spell)
 				if alt2 == id {
 					alt2 = respell(id, "upper")
@@ -515,13 +515,27 @@ func TestC04SignedEndpoints(t *testing.T) {
 					max = 64
 				}
 				pos := rapid.IntRange(0, max).Draw(rt, "pos")
+				if r.wallet && rapid.IntRange(0, 3).Draw(rt, "recoveryByte") == 0 {
+					pos = 64
+				}
 				if pos == 64 {
-					b[64] ^= 1 // the other recovery id
+					// any other value of the recovery byte, except the alternative spelling of the same one
+					// (V and V+27 denote the same recovery id: the same signature, not an altered one)
+					orig := int(b[64])
+					v := rapid.IntRange(0, 255).Filter(func(v int) bool { return v != orig && v != orig+27 && v != orig-27 }).Draw(rt, "v")
+					b[64] = byte(v)
+					detail = fmt.Sprintf("recovery byte %d -> %d", orig, v)
 				} else {
 					b[pos] ^= byte(rapid.IntRange(1, 255).Draw(rt, "mask"))
 				}
 				sig = encode(b)
-				detail = fmt.Sprintf("byte %d", pos)
+				if pos != 64 {
+					detail = fmt.Sprintf("byte %d", pos)
+				} else if v := int(b[64]); v >= 35 {
+					detail = "recovery byte >= 35"
+				} else {
+					detail = "recovery byte < 35"
+				}
 			case "empty":
 				sig = ""
 			case "short":
@@ -585,6 +599,27 @@ func TestC04SignedEndpoints(t *testing.T) {
 				if before != after {
 					rt.Fatalf("refused %s (alteration %q %s) changed the pool state:\n%s", r.method, alt, detail, diffDigest(before, after))
 				}
+				// ... nor may it have used up the nonce it carried: the named identity's own, correctly signed request
+				// with that very nonce is still a fresh request and must pass verification
+				if alt != "nonce-1" && alt != "idcase" {
+					owner, ownerID := r.who, r.id()
+					if alt == "identity" {
+						ownerID = id
+						owner = other
+						if r.wallet {
+							owner = otherWallet
+						}
+					}
+					var gsig string
+					if len(r.signArgs) == 0 {
+						gsig = mustSign(owner.key, r.method, ownerID, nonce)
+					} else {
+						gsig = mustSign(owner.key, r.method, ownerID, nonce, r.signArgs...)
+					}
+					if gerr := f.submit(r, gsig, ownerID, nonce, r.arg, viaRPC); classifyErr(gerr).Kind == "verify" {
+						rt.Fatalf("after a refused %s (alteration %q %s) naming %s with nonce %d, the identity's own correctly signed request with that nonce is refused by verification: %v (the refused request used up the nonce)", r.method, alt, detail, nodeName(ownerID), nonce, gerr)
+					}
+				}
 			}
 			sigKey := fmt.Sprintf("%s|%s|%s|%s|%s", endpoint, alt, detail, transport, outcome)
 			rec.Case(sigKey, alt != "none", []string{"endpoint:" + endpoint, "alt:" + alt, "transport:" + transport, "pair:" + endpoint + "/" + alt}, func() interface{} {
@@ -606,6 +641,12 @@ func respell(id, how string) string {
 		prefix, body = "0x", id[2:]
 	}
 	switch how {
+	case "prefix":
+		// the other spelling of the hex prefix: node ids gain one, wallet addresses get the upper-case one
+		if prefix == "" {
+			return "0x" + body
+		}
+		return "0X" + body
 	case "lower":
 		body = strings.ToLower(body)
 	case "upper":
@@ -684,4 +725,13 @@ func TestC04Concurrent(t *testing.T) {
 			})
 		})
 	})
+}
+
+// genNonceAhead: how far the request's nonce is ahead of the pool's clock. Any nonce above the identity's last
+// accepted one is fresh (C05: "strictly greater ... and not older than the window"): agents with a fast clock exist.
+func genNonceAhead(rt *rapid.T) int64 {
+	if rapid.IntRange(0, 4).Draw(rt, "farAhead") == 0 {
+		return int64(rapid.SampledFrom([]time.Duration{16 * time.Minute, time.Hour, 24 * time.Hour, 24 * 365 * time.Hour}).Draw(rt, "ahead"))
+	}
+	return rapid.Int64Range(0, int64(time.Minute)).Draw(rt, "nonceAhead")
 }
